@@ -500,6 +500,25 @@ class TBRMatchedMarkets:
     return True
 
   def greedy_search(self):
+    """Runs the greedy search, leaving the user's design parameters untouched.
+
+    See _greedy_search() for the details of the algorithm.
+
+    Returns:
+      the set of feasible designs found given the design parameters,
+        with their corresponding treatment/control groups and score.
+    """
+    # The search fills in unspecified group size ranges on the parameter
+    # object; restore the user-specified values afterwards.
+    user_ranges = (self.parameters.treatment_geos_range,
+                   self.parameters.control_geos_range)
+    try:
+      return self._greedy_search()
+    finally:
+      (self.parameters.treatment_geos_range,
+       self.parameters.control_geos_range) = user_ranges
+
+  def _greedy_search(self):
     """Searches the Matched Markets for a TBR experiment.
 
     Uses a greedy hill climbing algorithm to provide recommended 'matched
